@@ -1,3 +1,6 @@
+#[cfg(bpaf_verif)]
+#[allow(unused_imports)]
+use crate::verif::std;
 use crate::{info::Info, meta_help::Metavar, parsers::NamedArg, Doc, Meta};
 
 #[doc(hidden)]
